@@ -75,12 +75,13 @@ func zzNewRealRing(ring *zzRing, hash chord.HashFn, topFingers bool) *zzRealRing
 	return rr
 }
 
-// zzInArc: reference membership of h in the circular interval (low, high] of the 2^48 ring, written with modular
-// subtraction independently of chord.Between: everything when low == high.
+// zzInArc: reference membership of h in the circular interval (low, high] of the identifier ring, written from the
+// definition (not from chord.Between): the plain interval when low < high, the complement of (high, low] when the
+// interval wraps past zero, and the whole ring when low == high. One term, no case split.
 func zzInArc(low, h, high uint64) bool {
-	d := (h - low) & zzMask
-	w := (high - low) & zzMask
-	return rt.Or(low == high, rt.And(d != 0, d <= w))
+	plain := rt.And(low < h, h <= high)
+	wrapped := rt.Or(h > low, h <= high)
+	return rt.IteBool(low == high, true, rt.IteBool(low < high, plain, wrapped))
 }
 
 // zzCountKey: how many entries of list equal key (one term per entry).
